@@ -197,9 +197,38 @@ fn samples() -> Vec<Sample> {
 
 fn role_name(r: BuiltinValueRole) -> String { r.source_name() }
 
+/// I/O roles on the injected standard input: an EMPTY LINE is a line, not end of input; end of input is end of input
+pub fn check_io_lines() -> Result<(), (String, String)> {
+    use BuiltinValueRole as R;
+    let s = Sample { string: String::new(), int: 0, ch: 'a', bytes: vec![] };
+    // io_read_line: reader, error(100+1), eof(100+2), line(100+3)
+    for (stdin, want, what) in [(&b"\nrest"[..], 103i64, "an empty first line is a LINE"), (&b""[..], 102, "empty input is EOF"), (&b"x"[..], 103, "a last line without newline is a LINE"), (&b"\r\n"[..], 103, "a CRLF-only line is a LINE")] {
+        let (seen, _m, _o) = run_declared(R::IoReadLine, &s, stdin, &[]);
+        if !matches!(seen, Seen::Marker(m) if m == want) {
+            return Err((format!("io_read_line|stdin={:?}", String::from_utf8_lossy(stdin)), format!("io_read_line on stdin {:?}: {what}, but continuation #{want} was not selected", String::from_utf8_lossy(stdin))));
+        }
+    }
+    // io_read with a count: reader, count, error, success -> success continuation even at EOF (0 bytes); negative count -> error continuation
+    for (count, stdin, want) in [(0i64, &b"abc"[..], 103i64), (2, &b"abc"[..], 103), (5, &b""[..], 103), (-1, &b"abc"[..], 102)] {
+        let mut s2 = s.clone();
+        s2.int = count;
+        let (seen, _m, _o) = run_declared(R::IoRead, &s2, stdin, &[]);
+        if !matches!(seen, Seen::Marker(m) if m == want) {
+            return Err((format!("io_read|count={count}"), format!("io_read count {count}: continuation #{want} was not selected")));
+        }
+    }
+    Ok(())
+}
+
 pub fn witness(args: &[String]) -> i32 {
     std::panic::set_hook(Box::new(|_| {}));
     let filter = args.first().cloned();
+    if filter.is_none() {
+        if let Err((input, d)) = check_io_lines() {
+            println!("{{\"found\":true,\"tried\":1,\"input\":{},\"clause\":\"IO-LINES\",\"detail\":{}}}", esc(&input), esc(&d));
+            return 1;
+        }
+    }
     let mut n = 0u64;
     let all = samples();
     for role in BuiltinValueRole::all() {
@@ -227,6 +256,12 @@ pub fn witness(args: &[String]) -> i32 {
 pub fn replay(args: &[String]) -> i32 {
     std::panic::set_hook(Box::new(|_| {}));
     let input = args.first().cloned().unwrap_or_default();
+    if input.starts_with("io_read") && input.contains('=') {
+        return match check_io_lines() {
+            | Err((i, d)) => { println!("{{\"fails\":true,\"input\":{},\"detail\":{}}}", esc(&i), esc(&d)); 1 }
+            | Ok(()) => { println!("{{\"fails\":false,\"input\":{}}}", esc(&input)); 0 }
+        };
+    }
     let p: Vec<&str> = input.splitn(5, '|').collect();
     if p.len() != 5 { println!("{{\"fails\":false,\"error\":\"bad input\"}}"); return 2; }
     let Some(role) = BuiltinValueRole::from_source_name(p[0]) else { println!("{{\"fails\":false,\"error\":\"unknown role\"}}"); return 2; };
